@@ -79,75 +79,24 @@ def Rule.linksOKL (parent : Option Nat) : List Rule → Bool
   | r :: rs => r.linksOK parent false && Rule.linksOKL parent rs
 end
 
-/-- the public getter `rule.parentStyleSheet` (`cssrule.py:133-138`) for a rule whose container is `container`
-(`none`: the sheet's list): rules inside other rules report the raw field of the parent rule -/
-def derivedPss (container : Option Rule) (r : Rule) : Bool :=
-  match r.prule, container with
-  | some _, some c => c.pss
-  | some _, none => false
-  | none, _ => r.pss
+/-- the public getter `rule.parentStyleSheet` (`cssrule.py:133-140`): a rule inside another rule asks that rule,
+which may itself be inside a rule; `ancestors` = the containers of `r`, innermost first -/
+def derivedPss : List Rule → Rule → Bool
+  | ancestors, r => match r.prule, ancestors with
+    | none, _ => r.pss
+    | some _, [] => false
+    | some _, c :: cs => derivedPss cs c
 
-/-! regions of the known findings that concern the order (predicates on the kinds of the list before the call) -/
-
-/-- C09-add-variables-scan: ordered insert of @variables into a list without one, where an @charset/@import/@namespace
-rule stands after the first rule of `varsFirstBefore` (the scan for the insertion point starts at the front and does
-not skip the rules that must stay ahead) -/
-def varsScanBug (l : List Kind) : Bool :=
-  !hasKind [.vars] l && match firstIdx Gen.varsFirstBefore l with
-    | some j => hasKind [.charset, .imp, .ns] (l.drop j)
-    | none => false
-
-/-- C09-inorder-index-not-ignored: the scan finds no rule that fixes the insertion point, and the caller's `index`
-is used as it is -/
-def orderedFallback (l : List Kind) (k : Kind) : Bool :=
-  (k = .ns && !hasKind [.ns] l && (firstIdx Gen.nsFirstBefore (l.drop (afterLastOf Gen.nsStartAfter l))).isNone) ||
-  (k = .vars && !hasKind [.vars] l && (firstIdx Gen.varsFirstBefore l).isNone)
-
-/-- the operations whose effect on the ORDER of the sheet's list is a listed known finding
-(C09-add-variables-scan, C09-inorder-index-not-ignored) -/
-def OrderRegion (st : St) : Op → Prop
-  | .add s _ => s.kind = .vars ∧ varsScanBug (kindsOf st.rules) = true
-  | .insertOrdered s i _ =>
-      (s.kind = .vars ∧ varsScanBug (kindsOf st.rules) = true) ∨
-      (orderedFallback (kindsOf st.rules) s.kind = true ∧ i ≠ (st.rules.length : Int))
-  | _ => False
-
-instance (st : St) (op : Op) : Decidable (OrderRegion st op) := by
-  cases op <;> unfold OrderRegion <;> exact inferInstance
-
-/-- C09-add-charset-adopts: ordered add of an @charset rule OBJECT onto a sheet that starts with @charset — the encoding
-is copied, the object is not kept, but it is given the sheet as parent -/
-def AdoptRegion (st : St) : Op → Prop
-  | .add s v => v = false ∧ s.kind = .charset ∧ firstIs [.charset] (kindsOf st.rules) = true
-  | .insertOrdered s i v =>
-      v = false ∧ s.kind = .charset ∧ firstIs [.charset] (kindsOf st.rules) = true ∧
-        (idxOf (some i) st.rules.length).isSome = true
-  | _ => False
-
-/-- C09-media-accepts-variables, C09-page-accepts-nonmargin: `container.insertRule` lets a kind through that the
-container cannot hold -/
-def nestedRegionB (st : St) : Op → Bool
-  | .nInsert path s _ _ => match atPath st.rules path with
-    | some c => !containerRejects c.kind s.kind && !allowedIn c.kind s.kind
-    | none => false
-  | _ => false
-def NestedRegion (st : St) (op : Op) : Prop := nestedRegionB st op = true
-
-/-- C09-text-replace-keeps-parent: an accepted `cssText = …` on a sheet / container that held rules: the replaced
-rule objects keep their parent pointers -/
-def replaceRegionB (st : St) : Op → Bool
-  | .setText specs => !st.rules.isEmpty &&
-      (parseTop st.raising { acc := [], nd := [], level := 0, next := st.next } specs).isOk
-  | .nSetText path kids => match atPath st.rules path with
-    | some c => isContainer c && !c.kids.isEmpty &&
-        (cSetText st.raising (nsDict st.rules) st.next c kids).2.2.2 == .none
-    | none => false
-  | _ => false
-def ReplaceRegion (st : St) (op : Op) : Prop := replaceRegionB st op = true
-
-/-- all regions of listed known findings about the state (not about the returned index) -/
-def Region (st : St) (op : Op) : Prop :=
-  OrderRegion st op ∨ AdoptRegion st op ∨ NestedRegion st op ∨ ReplaceRegion st op
+mutual
+/-- the getter answers "the sheet" for this rule and for every rule below it -/
+def Rule.pssOK (ancestors : List Rule) : Rule → Bool
+  | ⟨i, k, pre, uri, enc, used, p, pr, kids⟩ =>
+    derivedPss ancestors ⟨i, k, pre, uri, enc, used, p, pr, []⟩ &&
+      Rule.pssOKL (⟨i, k, pre, uri, enc, used, p, pr, []⟩ :: ancestors) kids
+def Rule.pssOKL (ancestors : List Rule) : List Rule → Bool
+  | [] => true
+  | r :: rs => r.pssOK ancestors && Rule.pssOKL ancestors rs
+end
 
 /-- rule objects handed in by the caller are well nested (texts are parsed, which guarantees it) -/
 def OpOK : Op → Prop
@@ -155,7 +104,11 @@ def OpOK : Op → Prop
   | .add s v => v = true ∨ s.kidsOK = true
   | .insertOrdered s _ v => v = true ∨ s.kidsOK = true
   | .nInsert _ s _ v => v = true ∨ s.kidsOK = true
+  | .insertList specs _ => ∀ s ∈ specs, s.kidsOK = true
+  | .nInsertList _ specs _ => ∀ s ∈ specs, s.kidsOK = true
   | _ => True
+
+instance (op : Op) : Decidable (OpOK op) := by cases op <;> unfold OpOK <;> exact inferInstance
 
 structure Valid (st : St) : Prop where
   top : TopOK st.rules
@@ -166,13 +119,6 @@ structure Valid (st : St) : Prop where
   `next` (object identity is rendered as an id; Python's `r is rule` / `rule in self._cssRules` compare ids) -/
   ids : ∀ r ∈ st.rules, r.id < st.next
 
-instance (st : St) (op : Op) : Decidable (AdoptRegion st op) := by
-  cases op <;> unfold AdoptRegion <;> exact inferInstance
-instance (st : St) (op : Op) : Decidable (NestedRegion st op) := by unfold NestedRegion; exact inferInstance
-instance (st : St) (op : Op) : Decidable (ReplaceRegion st op) := by unfold ReplaceRegion; exact inferInstance
-instance (st : St) (op : Op) : Decidable (Region st op) := by unfold Region; exact inferInstance
-instance (op : Op) : Decidable (OpOK op) := by cases op <;> unfold OpOK <;> exact inferInstance
-
 /-- the part of `Valid` that speaks about the sheet's tree only (not about dropped objects) -/
 structure ValidTree (st : St) : Prop where
   top : TopOK st.rules
@@ -180,34 +126,10 @@ structure ValidTree (st : St) : Prop where
   links : ∀ r ∈ st.rules, r.linksOK none true = true
   ids : ∀ r ∈ st.rules, r.id < st.next
 
-/-- the regions that concern the tree: the two order findings and the two nested-kind findings -/
-def TreeRegion (st : St) (op : Op) : Prop := OrderRegion st op ∨ NestedRegion st op
+/-- every operation of the history hands in well nested rule objects -/
+def AllOK (ops : List Op) : Prop := ∀ op ∈ ops, OpOK op
 
-instance (st : St) (op : Op) : Decidable (TreeRegion st op) := by unfold TreeRegion; exact inferInstance
-
-/-- a history none of whose operations falls into a region that concerns the tree -/
-def CleanTree (st : St) : List Op → Prop
-  | [] => True
-  | op :: ops => OpOK op ∧ ¬ TreeRegion st op ∧ CleanTree (step st op).1 ops
-
-def cleanTreeDec : (st : St) → (ops : List Op) → Decidable (CleanTree st ops)
-  | _, [] => isTrue trivial
-  | st, op :: ops =>
-    have : Decidable (CleanTree (step st op).1 ops) := cleanTreeDec (step st op).1 ops
-    by unfold CleanTree; exact inferInstance
-instance (st : St) (ops : List Op) : Decidable (CleanTree st ops) := cleanTreeDec st ops
-
-/-- a history none of whose operations falls into a region of a listed finding (judged at the state it is applied to) -/
-def Clean (st : St) : List Op → Prop
-  | [] => True
-  | op :: ops => OpOK op ∧ ¬ Region st op ∧ Clean (step st op).1 ops
-
-def cleanDec : (st : St) → (ops : List Op) → Decidable (Clean st ops)
-  | _, [] => isTrue trivial
-  | st, op :: ops =>
-    have : Decidable (Clean (step st op).1 ops) := cleanDec (step st op).1 ops
-    by unfold Clean; exact inferInstance
-instance (st : St) (ops : List Op) : Decidable (Clean st ops) := cleanDec st ops
+instance (ops : List Op) : Decidable (AllOK ops) := by unfold AllOK; exact inferInstance
 
 /-! ## serialise + reparse: what must survive -/
 
